@@ -5,6 +5,7 @@ from vf import common, sphere as sp
 PID = 'C15'
 LEVEL = 'exploration'
 HALF_PI = math.pi / 2
+LONS = (12.5, -180.0, 180.0, -200.0, 300.0, 0.0, -270.0, 360.0, -93.0, 87.0, 267.5, -539.0, 540.5)
 
 
 def _lib():
@@ -46,21 +47,24 @@ def check_lat(acc, au, ct, phi, stratum):
         return None
     # the same through the lon/lat API (degrees)
     lat = math.degrees(phi)
-    if -90.0 <= lat <= 90.0:
+    # the latitude conversion must not depend on how (or where) the longitude is written: one longitude of the menu per grid point, all of them
+    # on the ladders and in replays
+    lons = LONS if stratum != 'grid' else (LONS[acc.n['evaluations'] % len(LONS)],)
+    for lon in lons if -90.0 <= lat <= 90.0 else ():
         try:
-            th, colat = ct.from_lonlat((12.5, lat))
+            th, colat = ct.from_lonlat((lon, lat))
             lon2, lat2 = ct.to_lonlat((th, colat))
         except Exception as e:
-            acc.violation(k + ':lonlat-raises', f'from_lonlat/to_lonlat raised {type(e).__name__}: {e}', case)
+            acc.violation(k + ':lonlat-raises', f'from_lonlat/to_lonlat raised {type(e).__name__}: {e} at longitude {lon!r}', case)
             return None
         e1 = abs((HALF_PI - colat) - want)
         e2 = abs(math.radians(lat2) - phi)
         acc.maximum('from_lonlat_vs_closed_form_rad', e1, phi)
         if not (e1 <= 1e-10) or not (e2 <= 1e-12 + 4e-16 * 90):
-            acc.violation(k + ':lonlat', f'from_lonlat latitude error {e1:.3g} rad / to_lonlat round trip error {e2:.3g} rad at latitude {lat!r}', case)
+            acc.violation(k + ':lonlat', f'from_lonlat latitude error {e1:.3g} rad / to_lonlat round trip error {e2:.3g} rad at latitude {lat!r}, longitude {lon!r}', case)
             return None
-        if abs(((lon2 - 12.5 + 180) % 360) - 180) > 1e-9:
-            acc.violation(k + ':lon', f'longitude 12.5 came back as {lon2!r}', case)
+        if abs(((lon2 - lon + 180) % 360) - 180) > 1e-9:
+            acc.violation(k + ':lon', f'longitude {lon!r} came back as {lon2!r}', case)
             return None
     acc.n['nontrivial'] += 1
     return b
